@@ -490,6 +490,76 @@ def run_model(lines, jobs=14):
     return res
 
 
+# ------------------------------------------------------------------ in-Coq shard (removes extraction + driver from the trusted base for it)
+def _qlit(x):
+    from fractions import Fraction
+    f = x if isinstance(x, Fraction) else Fraction(x)
+    return f"({f.numerator} # {f.denominator})"
+
+
+def _vlit(v):
+    return f"(rg_mkvariant {'ByCount' if v[0] == 'count' else 'ById'} {'true' if v[1] else 'false'})"
+
+
+def _mat(rows):
+    return "[" + "; ".join("[" + "; ".join(_qlit(x) for x in r) + "]" for r in rows) + "]"
+
+
+def coq_shard(ctx, construct_cases, step_cases):
+    """construct_cases: (variant, n, lim, driver output line); step_cases: (driver input line, driver output line).
+    Writes Examples stating that the model evaluated by vm_compute inside Coq equals what the extracted driver printed."""
+    import subprocess
+    from common import COQ
+    out = ["From ICG Require Import Prelude Bits Regret.", "Open Scope Q_scope."]
+    k = 0
+    for (v, n, lim, line) in construct_cases:
+        md = parse_model_construct(line)
+        lhs = (f"match rg_construct {_vlit(v)} {n}%nat {lim}%nat false with RgOk s => inl (rg_lim s, length (rg_r2i s), rg_tlen (rg_tab s), "
+               "rg_nrm s, rg_r2i s, rg_pmap s) | RgIndexError => inr 1%nat | RgValueError => inr 2%nat | RgNaN => inr 3%nat end")
+        if md["status"] == "ok":
+            rhs = (f"inl ({md['lim']}%nat, {md['V']}%nat, {md['tlen']}%N, {md['nrm']}%nat, [" + "; ".join(f"{x}%N" for x in md["r2i"]) + "], ["
+                   + "; ".join(f"({x})%Z" for x in md["pmap"]) + "])")
+        else:
+            rhs = "inr %d%%nat" % {"index_error": 1, "value_error": 2, "nan": 3}[md["status"]]
+        out.append(f"Example shard_c{k} : {lhs} = {rhs}. Proof. vm_compute. reflexivity. Qed.")
+        k += 1
+    for (line, res) in step_cases:
+        t = line.split()
+        pol, clamp, do_iter, n, lim, plus, it, R, C = t[1], int(t[2]), int(t[3]), int(t[4]), int(t[5]), int(t[6]), int(t[7]), int(t[8]), int(t[9])
+        pos = 10
+        vals = [tokq(x) for x in t[pos:pos + 2 * R * C]]
+        pos += 2 * R * C
+        reg = [vals[r * C:(r + 1) * C] for r in range(R)]
+        st = [vals[R * C + r * C:R * C + (r + 1) * C] for r in range(R)]
+        T = int(t[pos]); pos += 1
+        term = [tokq(x) for x in t[pos:pos + T]]; pos += T
+        U = int(t[pos]); pos += 1
+        used = []
+        for _ in range(U):
+            kk = int(t[pos]); pos += 1
+            used.append([int(x) for x in t[pos:pos + kk]]); pos += kk
+        if not do_iter:
+            continue
+        secs = [x.strip() for x in res.split("|")]
+        ni = next(i for i, x in enumerate(secs) if x.startswith("N "))
+        nn = secs[ni].split()
+        lhs = (f"match rg_bind (rg_load {_vlit((pol, clamp))} (rg_mksaved {it}%nat {n}%nat {lim}%nat {'true' if plus else 'false'} {_mat(reg)} {_mat(st)})) "
+               f"(fun s0 => rg_iteration s0 [{'; '.join(_qlit(x) for x in term)}] [" + "; ".join("[" + "; ".join(f"{c}%N" for c in cs) + "]" for cs in used)
+               + "]) with RgOk s => inl (rg_iter s, rg_regret s, rg_strat s) | RgIndexError => inr 1%nat | RgValueError => inr 2%nat | RgNaN => inr 3%nat end")
+        if nn[1] == "ok":
+            r2 = [tokq(x) for x in secs[ni + 1].split()]
+            s2 = [tokq(x) for x in secs[ni + 2].split()]
+            rhs = (f"inl ({int(nn[2])}%nat, {_mat([r2[r * C:(r + 1) * C] for r in range(R)])}, {_mat([s2[r * C:(r + 1) * C] for r in range(R)])})")
+        else:
+            rhs = "inr %d%%nat" % {"index_error": 1, "value_error": 2, "nan": 3}[nn[1]]
+        out.append(f"Example shard_s{k} : {lhs} = {rhs}. Proof. vm_compute. reflexivity. Qed.")
+        k += 1
+    f = ctx.work / "cases_C14.v"
+    f.write_text("\n".join(out) + "\n")
+    p = subprocess.run(["timeout", "600", "coqc", "-Q", str(COQ / "theories"), "ICG", str(f)], capture_output=True, text=True, cwd=str(ctx.work))
+    return k, p.returncode == 0, (p.stdout + p.stderr)[-1500:]
+
+
 # ------------------------------------------------------------------ plans
 def construction_configs(ctx):
     cf = [(3, l) for l in range(1, 6)] + [(4, l) for l in range(1, 12)] + [(5, l) for l in (1, 2, 3)]
@@ -526,6 +596,7 @@ def run(ctx, proof):
     for (n, lim) in cfgs:
         lines += model_construct_lines(n, lim, False)
     outs = run_driver(lines)
+    construct_outs = outs
     candidates = set(VARIANTS)
     first_empty = None
     ctor_fail = []
@@ -670,6 +741,16 @@ def run(ctx, proof):
                    f"({len(mism)} disagreeing steps)",
                    {"relation": "lock-step: strategies of the state and next state after one iteration", "first_disagreement": rep,
                     "detail": detail, "disagreeing_steps": len(mism), "scheme": list(variant)}, found_input=False)
+    # ---- 3. in-Coq evaluation shard
+    if True:
+        ccases = [(VARIANTS[vi], n, lim, construct_outs[idx * 4 + vi]) for idx, (n, lim) in enumerate(cfgs) if n <= (3 if ctx.quick else 4) and lim <= 12
+                  for vi in range(4)]
+        scases = [(l, o) for (l, o) in zip(all_lines, outs) if l.split()[4] == "3"][:(12 if ctx.quick else 80)]
+        nsh, ok, log = coq_shard(ctx, ccases, scases)
+        ctx.coverage["coq_vm_compute_shard"] = {"cases": nsh, "identical_to_extracted_model": ok}
+        if not ok:
+            report("in-Coq evaluation (vm_compute) of the model disagrees with the extracted OCaml model on the shard",
+                   {"relation": "extraction: coqc vm_compute = ocaml driver", "log": log}, found_input=False)
     ctx.coverage["exhaustive"] = False
     ctx.coverage["configurations_constructed"] = len(constructed)
     ctx.coverage["memory_note"] = ("n=5 with a by-id table: len 2^24+1 .. 2^24.8 int64 (128-224 MB virtual, zero pages lazily committed; "
